@@ -1,0 +1,515 @@
+//! Verification hooks. Compiled only with `--cfg cormacrelf_incremental_rs_verif`.
+//!
+//! - a registry of every node / observer created in a `State`, in creation order
+//!   (the position in the registry is the identity used by the external model),
+//! - `IncrState::verif_snapshot()`: a JSON projection of the complete engine state,
+//! - an event sink called at the linearization points of the engine.
+//!
+//! Nothing in here changes the behaviour of the engine.
+
+use std::cell::{Cell, RefCell};
+use std::fmt::Write;
+use std::rc::Weak;
+
+use crate::internal_observer::{ErasedObserver, ObserverState};
+use crate::kind::Kind;
+use crate::node::{ErasedNode, Node, NodeId};
+use crate::scope::Scope;
+use crate::state::{IncrStatus, State};
+use crate::{NodeRef, WeakNode};
+
+#[derive(Default)]
+pub(crate) struct VerifState {
+    pub nodes: RefCell<Vec<WeakNode>>,
+    pub node_ids: RefCell<Vec<NodeId>>,
+    pub observers: RefCell<Vec<Weak<dyn ErasedObserver>>>,
+    pub observer_ids: RefCell<Vec<usize>>,
+}
+
+impl VerifState {
+    pub(crate) fn register_node(&self, node: &NodeRef) {
+        self.nodes.borrow_mut().push(node.weak());
+        self.node_ids.borrow_mut().push(node.id);
+    }
+    pub(crate) fn register_observer(&self, obs: Weak<dyn ErasedObserver>, raw_id: usize) {
+        self.observers.borrow_mut().push(obs);
+        self.observer_ids.borrow_mut().push(raw_id);
+    }
+    /// 1-based registry position of a node id, 0 if unknown (e.g. other state).
+    pub(crate) fn index_of(&self, id: NodeId) -> usize {
+        let ids = self.node_ids.borrow();
+        // ids are allocated monotonically, so the registry is sorted.
+        match ids.binary_search_by(|probe| probe.0.cmp(&id.0)) {
+            Ok(ix) => ix + 1,
+            Err(_) => 0,
+        }
+    }
+    pub(crate) fn observer_index_of(&self, raw: usize) -> usize {
+        let ids = self.observer_ids.borrow();
+        match ids.binary_search(&raw) {
+            Ok(ix) => ix + 1,
+            Err(_) => 0,
+        }
+    }
+}
+
+thread_local! {
+    static SINK: RefCell<Option<Box<dyn FnMut(&str)>>> = RefCell::new(None);
+    static SEQ: Cell<u64> = Cell::new(0);
+}
+
+/// Install (or remove) the per-thread event sink. Each event is one JSON object (no newline).
+pub fn verif_set_sink(sink: Option<Box<dyn FnMut(&str)>>) {
+    SINK.with(|s| *s.borrow_mut() = sink);
+}
+
+/// Emit a caller-provided JSON object into the same ordered stream as the engine events.
+pub fn verif_note(json_object_body: &str) {
+    emit_raw(json_object_body);
+}
+
+pub(crate) fn sink_enabled() -> bool {
+    SINK.with(|s| s.try_borrow().map_or(false, |s| s.is_some()))
+}
+
+fn emit_raw(body: &str) {
+    SINK.with(|s| {
+        // A sink that re-enters the engine (it must not) is ignored rather than panicking.
+        if let Ok(mut guard) = s.try_borrow_mut() {
+            if let Some(f) = guard.as_mut() {
+                let seq = SEQ.with(|c| {
+                    let n = c.get() + 1;
+                    c.set(n);
+                    n
+                });
+                let line = format!("{{\"seq\":{seq},{body}}}");
+                f(&line);
+            }
+        }
+    });
+}
+
+/// `ev(state, "name", &[("k", v), ...])` -- node ids are translated to registry positions by the
+/// caller through `nix`.
+pub(crate) fn ev(name: &str, fields: &[(&str, i64)]) {
+    if !sink_enabled() {
+        return;
+    }
+    let mut body = format!("\"ev\":\"{name}\"");
+    for (k, v) in fields {
+        let _ = write!(body, ",\"{k}\":{v}");
+    }
+    emit_raw(&body);
+}
+
+/// Registry position of a node (1-based), 0 if its state is gone.
+pub(crate) fn nix(node: &Node) -> i64 {
+    match node.weak_state().upgrade() {
+        Some(st) => st.verif.index_of(node.id) as i64,
+        None => 0,
+    }
+}
+
+pub(crate) fn json_str(s: &str) -> String {
+    let mut out = String::with_capacity(s.len() + 2);
+    out.push('"');
+    for c in s.chars() {
+        match c {
+            '"' => out.push_str("\\\""),
+            '\\' => out.push_str("\\\\"),
+            '\n' => out.push_str("\\n"),
+            '\r' => out.push_str("\\r"),
+            '\t' => out.push_str("\\t"),
+            c if (c as u32) < 0x20 => {
+                let _ = write!(out, "\\u{:04x}", c as u32);
+            }
+            c => out.push(c),
+        }
+    }
+    out.push('"');
+    out
+}
+
+fn list_i64(v: impl IntoIterator<Item = i64>) -> String {
+    let mut s = String::from("[");
+    for (i, x) in v.into_iter().enumerate() {
+        if i > 0 {
+            s.push(',');
+        }
+        let _ = write!(s, "{x}");
+    }
+    s.push(']');
+    s
+}
+
+fn kind_name(kind: &Kind) -> &'static str {
+    match kind {
+        Kind::Constant(_) => "const",
+        Kind::ArrayFold(_) => "fold",
+        Kind::Var(_) => "var",
+        Kind::Map(_) => "map",
+        Kind::MapWithOld(_) => "mwo",
+        Kind::MapRef(_) => "mapref",
+        Kind::Map2(_) => "map2",
+        Kind::Map3(_) => "map3",
+        Kind::Map4(_) => "map4",
+        Kind::Map5(_) => "map5",
+        Kind::Map6(_) => "map6",
+        Kind::BindLhsChange { .. } => "lhs",
+        Kind::BindMain { .. } => "main",
+        Kind::Expert(_) => "expert",
+    }
+}
+
+/// True if reading the node's value cannot hit a `RefCell` that is mutably borrowed right now
+/// (the snapshot may be taken from inside a user function).
+fn borrowable(node: &Node) -> bool {
+    match node.verif_kind() {
+        Kind::MapRef(m) if node.is_valid() => borrowable(&m.input),
+        _ => node.value_opt.try_borrow().is_ok(),
+    }
+}
+
+fn weak_ix(state: &State, w: &WeakNode) -> i64 {
+    match w.upgrade() {
+        Some(n) => state.verif.index_of(n.id) as i64,
+        None => -1,
+    }
+}
+
+fn node_json(state: &State, ix: usize, node: &Node) -> String {
+    let mut s = String::new();
+    let kind = node.verif_kind();
+    let _ = write!(s, "{{\"id\":{ix},\"kind\":\"{}\"", kind_name(kind));
+    let _ = write!(s, ",\"valid\":{}", node.is_valid());
+    // children as the engine currently sees them (empty once invalid)
+    let mut children = vec![];
+    node.foreach_child(&mut |_ix, child| children.push(state.verif.index_of(child.id) as i64));
+    let _ = write!(s, ",\"children\":{}", list_i64(children));
+    let val = if borrowable(node) {
+        node.value_as_any().map(|v| format!("{:?}", &*v))
+    } else {
+        Some("<borrowed>".to_string())
+    };
+    match val {
+        Some(v) => {
+            let _ = write!(s, ",\"val\":{}", json_str(&v));
+        }
+        None => s.push_str(",\"val\":null"),
+    }
+    let _ = write!(s, ",\"rec_at\":{}", node.recomputed_at.get().0);
+    let _ = write!(s, ",\"chg_at\":{}", node.changed_at.get().0);
+    let _ = write!(s, ",\"h\":{}", node.height.get());
+    let _ = write!(s, ",\"h_rch\":{}", node.height_in_recompute_heap.get());
+    let _ = write!(s, ",\"h_ahh\":{}", node.height_in_adjust_heights_heap.get());
+    {
+        let ps = node.parents.borrow();
+        let _ = write!(
+            s,
+            ",\"parents\":{}",
+            list_i64(ps.iter().map(|p| weak_ix(state, p)))
+        );
+    }
+    {
+        let pci = node.parent_child_indices.borrow();
+        let _ = write!(
+            s,
+            ",\"pic\":{}",
+            list_i64(pci.my_parent_index_in_child_at_index.iter().map(|x| *x as i64))
+        );
+        let _ = write!(
+            s,
+            ",\"cip\":{}",
+            list_i64(pci.my_child_index_in_parent_at_index.iter().map(|x| *x as i64))
+        );
+    }
+    let scope = match &node.created_in {
+        Scope::Top => 0,
+        Scope::Bind(w) => match w.upgrade() {
+            Some(b) => state.verif.index_of(b.id()) as i64,
+            None => -1,
+        },
+    };
+    let _ = write!(s, ",\"scope\":{scope}");
+    let _ = write!(s, ",\"num_handlers\":{}", node.num_on_update_handlers.get());
+    let _ = write!(
+        s,
+        ",\"node_handlers\":{}",
+        node.on_update_handlers
+            .try_borrow()
+            .map_or(-1, |h| h.len() as i64)
+    );
+    {
+        let obs = node.observers.borrow();
+        let mut ids: Vec<i64> = obs
+            .keys()
+            .map(|k| state.verif.observer_index_of(k.verif_raw()) as i64)
+            .collect();
+        ids.sort();
+        let _ = write!(s, ",\"observers\":{}", list_i64(ids));
+    }
+    let _ = write!(
+        s,
+        ",\"in_has\":{}",
+        node.is_in_handle_after_stabilisation.get()
+    );
+    let _ = write!(s, ",\"force_nec\":{}", node.force_necessary.get());
+    match kind {
+        Kind::MapRef(m) => {
+            let _ = write!(s, ",\"did_change\":{}", m.did_change.get());
+        }
+        Kind::Var(v) => {
+            let (cell, pending) = v.verif_var();
+            let _ = write!(s, ",\"set_at\":{}", v.set_at().0);
+            let _ = write!(s, ",\"cell\":{}", json_str(&cell));
+            match pending {
+                Some(p) => {
+                    let _ = write!(s, ",\"pending\":{}", json_str(&p));
+                }
+                None => s.push_str(",\"pending\":null"),
+            }
+        }
+        Kind::BindLhsChange { bind } => {
+            let rhs = bind
+                .rhs
+                .borrow()
+                .as_ref()
+                .map_or(0, |r| state.verif.index_of(r.id) as i64);
+            let _ = write!(s, ",\"rhs\":{rhs}");
+            let all = bind.all_nodes_created_on_rhs.borrow();
+            let _ = write!(
+                s,
+                ",\"created\":{}",
+                list_i64(all.iter().map(|w| weak_ix(state, w)))
+            );
+            let _ = write!(s, ",\"main\":{}", weak_ix(state, &bind.main.borrow()));
+            let _ = write!(s, ",\"lhs\":{}", state.verif.index_of(bind.lhs.id));
+        }
+        Kind::BindMain { lhs_change, .. } => {
+            let _ = write!(
+                s,
+                ",\"lhs_change\":{}",
+                state.verif.index_of(lhs_change.id)
+            );
+        }
+        Kind::Expert(e) => {
+            let edges = e.children.borrow();
+            let _ = write!(
+                s,
+                ",\"edges\":{}",
+                list_i64(
+                    edges
+                        .iter()
+                        .map(|e| state.verif.index_of(e.packed().id) as i64)
+                )
+            );
+            let _ = write!(
+                s,
+                ",\"edge_ix\":{}",
+                list_i64(
+                    edges
+                        .iter()
+                        .map(|e| e.index_cell().get().map_or(-1, |x| x as i64))
+                )
+            );
+            let _ = write!(s, ",\"force_stale\":{}", e.force_stale.get());
+            let _ = write!(s, ",\"num_invalid\":{}", e.num_invalid_children.get());
+            let _ = write!(s, ",\"fire_all\":{}", e.will_fire_all_callbacks.get());
+        }
+        _ => {}
+    }
+    s.push('}');
+    s
+}
+
+pub(crate) fn snapshot(state: &State) -> String {
+    let mut s = String::from("{");
+    let status = match state.status.get() {
+        IncrStatus::NotStabilising => "idle",
+        IncrStatus::Stabilising => "stabilising",
+        IncrStatus::RunningOnUpdateHandlers => "handlers",
+    };
+    let _ = write!(s, "\"status\":\"{status}\"");
+    let _ = write!(s, ",\"stab_num\":{}", state.stabilisation_num.get().0);
+    // nodes
+    s.push_str(",\"nodes\":[");
+    {
+        let nodes = state.verif.nodes.borrow();
+        let mut first = true;
+        for (i, w) in nodes.iter().enumerate() {
+            if !first {
+                s.push(',');
+            }
+            first = false;
+            match w.upgrade() {
+                Some(n) => s.push_str(&node_json(state, i + 1, &n)),
+                None => {
+                    let _ = write!(s, "{{\"id\":{},\"kind\":\"released\"}}", i + 1);
+                }
+            }
+        }
+    }
+    s.push(']');
+    // observers
+    s.push_str(",\"observers\":[");
+    {
+        let obs = state.verif.observers.borrow();
+        let all = state.all_observers.borrow();
+        let mut first = true;
+        for (i, w) in obs.iter().enumerate() {
+            if !first {
+                s.push(',');
+            }
+            first = false;
+            match w.upgrade() {
+                Some(o) => {
+                    let st = match o.state().get() {
+                        ObserverState::Created => "created",
+                        ObserverState::InUse => "inuse",
+                        ObserverState::Disallowed => "disallowed",
+                        ObserverState::Unlinked => "unlinked",
+                    };
+                    let _ = write!(
+                        s,
+                        "{{\"id\":{},\"state\":\"{st}\",\"node\":{},\"handlers\":{},\"in_all\":{}}}",
+                        i + 1,
+                        state.verif.index_of(o.observing_erased().id),
+                        o.verif_num_handlers(),
+                        all.contains_key(&o.id())
+                    );
+                }
+                None => {
+                    let _ = write!(s, "{{\"id\":{},\"state\":\"released\"}}", i + 1);
+                }
+            }
+        }
+    }
+    s.push(']');
+    let _ = write!(s, ",\"rch\":{}", state.recompute_heap.verif_dump(state));
+    let _ = write!(
+        s,
+        ",\"ahh\":{}",
+        state.adjust_heights_heap.borrow().verif_dump()
+    );
+    let obs_ix = |w: &Weak<dyn ErasedObserver>| -> i64 {
+        w.upgrade().map_or(-1, |o| {
+            state.verif.observer_index_of(o.id().verif_raw()) as i64
+        })
+    };
+    let _ = write!(
+        s,
+        ",\"new_observers\":{}",
+        list_i64(state.new_observers.borrow().iter().map(obs_ix))
+    );
+    let _ = write!(
+        s,
+        ",\"disallowed\":{}",
+        list_i64(state.disallowed_observers.borrow().iter().map(obs_ix))
+    );
+    let _ = write!(
+        s,
+        ",\"all_observers\":{}",
+        state.all_observers.borrow().len()
+    );
+    let _ = write!(
+        s,
+        ",\"prop_invalid\":{}",
+        list_i64(
+            state
+                .propagate_invalidity
+                .borrow()
+                .iter()
+                .map(|w| weak_ix(state, w))
+        )
+    );
+    let _ = write!(
+        s,
+        ",\"has\":{}",
+        list_i64(
+            state
+                .handle_after_stabilisation
+                .borrow()
+                .iter()
+                .map(|w| weak_ix(state, w))
+        )
+    );
+    let _ = write!(
+        s,
+        ",\"run_handlers\":{}",
+        state
+            .run_on_update_handlers
+            .try_borrow()
+            .map_or(-1, |h| h.len() as i64)
+    );
+    let _ = write!(
+        s,
+        ",\"set_during\":{}",
+        list_i64(
+            state
+                .set_during_stabilisation
+                .borrow()
+                .iter()
+                .map(|w| w
+                    .upgrade()
+                    .map_or(-1, |v| state.verif.index_of(v.id()) as i64))
+        )
+    );
+    let _ = write!(s, ",\"dead_vars\":{}", state.dead_vars.borrow().len());
+    let scope = match &*state.current_scope.borrow() {
+        Scope::Top => 0,
+        Scope::Bind(w) => match w.upgrade() {
+            Some(b) => state.verif.index_of(b.id()) as i64,
+            None => -1,
+        },
+    };
+    let _ = write!(s, ",\"current_scope\":{scope}");
+    let _ = write!(
+        s,
+        ",\"stats\":{{\"created\":{},\"changed\":{},\"recomputed\":{},\"invalidated\":{},\"became_necessary\":{},\"became_unnecessary\":{},\"var_sets\":{},\"active_observers\":{}}}",
+        state.num_nodes_created.get(),
+        state.num_nodes_changed.get(),
+        state.num_nodes_recomputed.get(),
+        state.num_nodes_invalidated.get(),
+        state.num_nodes_became_necessary.get(),
+        state.num_nodes_became_unnecessary.get(),
+        state.num_var_sets.get(),
+        state.num_active_observers.get(),
+    );
+    let _ = write!(s, ",\"weak_maps\":{}", state.weak_maps.borrow().len());
+    s.push('}');
+    s
+}
+
+impl crate::IncrState {
+    /// JSON projection of the complete engine state (verification builds only).
+    pub fn verif_snapshot(&self) -> String {
+        snapshot(&self.inner)
+    }
+    /// Number of nodes ever created in this state.
+    pub fn verif_num_nodes(&self) -> usize {
+        self.inner.verif.nodes.borrow().len()
+    }
+}
+
+impl crate::WeakState {
+    pub fn verif_snapshot(&self) -> Option<String> {
+        self.upgrade_inner().map(|s| snapshot(&s))
+    }
+}
+
+impl<T> crate::Incr<T> {
+    /// Registry position (1-based creation index within its state) of this node.
+    pub fn verif_index(&self) -> usize {
+        nix(self.node.erased()) as usize
+    }
+}
+
+impl<T: crate::Value> crate::Observer<T> {
+    /// Registry position (1-based creation index within its state) of this observer.
+    pub fn verif_index(&self) -> usize {
+        match self.state().upgrade_inner() {
+            Some(st) => st.verif.observer_index_of(self.verif_raw_id()),
+            None => 0,
+        }
+    }
+}
